@@ -2383,6 +2383,7 @@ func (c *vsCase) cancelListens() {
 func vsRunCase(t *testing.T, out *verifOut, id string, seed int64, idx int) {
 	c := &vsCase{seed: seed, idx: idx, rng: vsRng(seed, idx), tags: map[string]bool{}, beh: map[string]vsBeh{},
 		listenIDsAtClose: map[string]bool{}, wfailOn: map[string]bool{}, rfailOn: map[string]bool{}, hrec: map[string]*vsHRec{}, produced: map[string]string{}, issued: map[string][]vsIssued{}, toolsEver: map[string]bool{}}
+	out.begin(id, c.op) // for the hang watchdog: this case's record is written only at its end
 	func() {
 		defer func() {
 			if r := recover(); r != nil {
@@ -2411,6 +2412,9 @@ func vsRunCase(t *testing.T, out *verifOut, id string, seed int64, idx int) {
 // vsParseOp extracts seed and idx from an op line "sess seed=<n> idx=<k> ...".
 func vsParseOp(op string) (seed int64, idx int, ok bool) {
 	toks := strings.Fields(op)
+	if len(toks) > 0 && toks[0] == "verif-hang" { // the watchdog's record of a case that hung
+		toks = toks[1:]
+	}
 	if len(toks) == 0 || toks[0] != "sess" {
 		return 0, 0, false
 	}
